@@ -401,7 +401,7 @@ fn select_n_nodes(
     };
 
     let mut num_extra_nodes = 0;
-    let selected_dcs = if num_data_centers <= n {
+    let mut selected_dcs = if num_data_centers <= n {
         num_extra_nodes = n - num_data_centers;
         data_centers
             .iter_mut()
@@ -416,7 +416,7 @@ fn select_n_nodes(
 
     let mut dc_count = selected_dcs.len();
     let mut selected_nodes = Nodes::new();
-    for (_, dc_nodes) in selected_dcs.into_iter() {
+    for (_, dc_nodes) in selected_dcs.iter_mut() {
         let node = match dc_nodes.next() {
             Some(node) => {
                 if node == local_node {
@@ -458,6 +458,22 @@ fn select_n_nodes(
         }
 
         dc_count -= 1;
+    }
+
+    // A pick above is lost when the candidate turns out to be the local node or an
+    // already selected node, top up from the remaining nodes of the selected data centers.
+    for (_, dc_nodes) in selected_dcs.iter_mut() {
+        for _ in 0..dc_nodes.len() {
+            if selected_nodes.len() >= n {
+                break;
+            }
+
+            if let Some(node) = dc_nodes.next() {
+                if node != local_node && !selected_nodes.contains(&node) {
+                    selected_nodes.push(node);
+                }
+            }
+        }
     }
 
     if selected_nodes.len() >= n {
